@@ -1,3 +1,51 @@
 # Filled in as engines land; read by gen_manifest.py
-CLAIMED = {}
-ENGINES = []
+_TV = "translation_validation"
+_ABISYM_NOTE = ("Trusted: abisym/src/spec.rs (reference model written from CanonicalABI.md), the documented meaning of each abi::Instruction "
+                "(abisym/src/eval.rs), wit_parser::SizeAlign strides as consumed by backends (cross-checked, TRUSTED-BASE-DISAGREEMENT), z3 5.1 "
+                "(cvc5 sampled; every sat model re-evaluated by abisym's own term evaluator before VIOLATION). Assumed: allocator contract "
+                "(fresh, aligned, disjoint), value validity (char scalar, discriminant in range), list lengths <= 2 (quick) / 3 (thorough), "
+                "non-aliasing input buffers. WIT types/signatures are ENUMERATED (bounded corpus), values are symbolic.")
+
+CLAIMED = {
+    "C01": dict(engine="abisym", level=_TV, ref="DESIGN §1/E1, §4/C01", note=_ABISYM_NOTE,
+                technique="symbolic execution of the real generator's instruction stream + SMT (QF_BV, z3/cvc5) against a canonical-ABI reference",
+                text="Bounded proof per enumerated WIT type (~360 types x pointer width {4,8} x list mode x 5 families): the instruction stream the "
+                     "real abi.rs emits is executed symbolically over ALL values of the type and the solver shows lower_flat/lower_to_memory/"
+                     "lift_from_memory/flat lifting agree with the reference encoder/decoder bit for bit (incl. padding slots, buffer sizes, "
+                     "frame condition). Right level: the bugs live at rare values/layouts that no sampled test reaches; types cannot be made symbolic."),
+    "C02": dict(engine="abisym", level=_TV, ref="DESIGN §1/E1, §4/C02", note=_ABISYM_NOTE,
+                technique="symbolic execution of abi::call streams + SMT against the reference calling convention",
+                text="For ~90 signatures straddling the 16-flat-parameter / 1-flat-result limits x {guest import sync, guest export sync, guest export "
+                     "async(callback)} x pointer width x list mode: exactly one core call / interface call / task.return, canonical core signature "
+                     "recomputed by the reference, flat or indirect parameters and results equal the reference encoding for all argument values, "
+                     "caller-allocated parameter record freed exactly once."),
+    "C03": dict(engine="abisym", level=_TV, ref="DESIGN §1/E1, §4/C03", note=_ABISYM_NOTE,
+                technique="symbolic allocation/free ledger over the lowering + deallocation streams, matched by SMT",
+                text="For every enumerated type with heap data or owned handles: run the real lowering (recording each allocation with its path "
+                     "guard) then the real deallocate_lists[_and_own]_in_types / post_return stream on the lowered representation; the solver shows "
+                     "each non-empty buffer is freed exactly once with its own size+alignment, nothing else is freed, owned handles are dropped as "
+                     "a multiset exactly in lists+own mode and never in lists mode; guest_export_needs_post_return == reference 'has heap buffer'."),
+    "C04": dict(engine="abisym+exprsmt", level=_TV, ref="DESIGN §1/E1+E2, §4/C04", note=_ABISYM_NOTE + " Backend half: exprsmt/SEMANTICS.md language "
+                "conversion tables, CBMC's C semantics (--32), Kani for generated Rust.",
+                technique="SMT over all 32/64-bit patterns: abi::cast pairs produced by flat_types for 484 two-case + sampled three-case variant "
+                          "shapes; per-backend emitted Bitcast expressions translated to bit-vector terms (CBMC for C)",
+                text="Core: every (payload flat type, joined type) pair the generator feeds to abi::cast is shown lossless (down(up(x)) == x) and equal to "
+                     "the canonical reinterpret/zero-extend/wrap coercion for all bit patterns, no shape reaches an unreachable!() arm, and the full "
+                     "flat lower/lift of each shape matches the reference. Backends: the expression each of 7 backends emits for each Bitcast is "
+                     "decided against the same coercion in its typed context."),
+    "C14": dict(engine="exprsmt", level=_TV, ref="DESIGN §1/E2, §4/C14",
+                note="Trusted: exprsmt/SEMANTICS.md (per-language integer conversion rules for C++, C#, Go, MoonBit, D, Rust), CBMC's C semantics with a "
+                     "32-bit libc header shim, Kani for the generated Rust export glue; z3 and cvc5 must agree. Probe worlds are fixed (one import and one "
+                     "export per scalar type); extraction is anchored on sentinel names and unparseable expressions are inconclusive, never passed.",
+                technique="emitted scalar conversion expressions -> SMT bit-vector terms under each target language's semantics (CBMC on generated C, Kani on generated Rust), all 2^32/2^64 inputs",
+                text="For each of 7 backends x 24 scalar Instructions x import/export context the generator's emitted expression is extracted from real "
+                     "generated bindings and the solver shows it equals the canonical mapping for every input (lifts: arbitrary upper bits). "
+                     "Right level: a wrong conversion that is masked on the round trip (as MoonBit s8 was) is invisible to round-trip tests."),
+}
+
+ENGINES = [
+    {"name": "abisym", "path": "/verif/abisym", "serves_properties": ["C01", "C02", "C03", "C04"],
+     "kind_free_text": "Rust: Bindgen implementation that records the real generator's Instruction stream, symbolic interpreter, canonical-ABI reference, SMT-LIB emitter (z3/cvc5), model replay"},
+    {"name": "exprsmt", "path": "/verif/exprsmt", "serves_properties": ["C14", "C04"],
+     "kind_free_text": "Rust driver running every backend's generator on probe worlds + Python expression extractors/translators to SMT; CBMC on generated C; Kani on generated Rust"},
+]
